@@ -6,11 +6,16 @@ Mathlib-free.
 -/
 namespace Pycdlib.Hybrid
 
-/-- `_calc_cc(iso_size)`: (cylinder count capped at 1024, padding to a whole cylinder) -/
-def calcCc (isoSize heads sectors : Nat) : Nat × Nat :=
+/-- room the backup GPT needs behind the image: 32 sectors of partition entries and one header sector -/
+def gptBackup : Nat := 33 * 512
+
+/-- `_calc_cc(iso_size)`: (cylinder count capped at 1024, padding to a whole cylinder; with EFI the padding is
+extended by whole cylinders until the backup GPT fits into it) -/
+def calcCc (isoSize heads sectors : Nat) (efi : Bool) : Nat × Nat :=
   let cylsize := heads * sectors * 512
   let frac := isoSize % cylsize
   let padding := if frac > 0 then cylsize - frac else 0
+  let padding := if efi && padding < gptBackup then padding + (gptBackup - padding + cylsize - 1) / cylsize * cylsize else padding
   (min ((isoSize + padding) / cylsize) 1024, padding)
 
 /-- start CHS of the partition (`new`): (head, sector byte, cylinder byte) -/
